@@ -104,6 +104,9 @@ def make_confs(rng):
     def pts(n=6, span=2.5):
         return [(rng.uniform(-span, span), rng.uniform(-span, span)) for _ in range(n)]
     psi = rng.uniform(0.2, 1.3)
+    # dimer axis 19..26 degrees off x: rotations by 15 and 30 degrees (mod 90) then put the axis where its
+    # bounding box is shorter than 30 radii although the centre distance is not
+    th0 = math.radians(rng.uniform(19.0, 26.0))
     acc = {"interpolate_integrals": False}
     S = lambda n, r, c: dict(k="sphere", n=n, r=r, center=c)
     confs = [
@@ -125,7 +128,17 @@ def make_confs(rng):
         Conf("Lens(Mie)/below_focus", [S(1.59, 0.5, (0.3, -0.2, -3.0))], psi, pts(4), Lens(0.8, Mie(False, False), 60, 60),
              tol=1e-6),
         Conf("Lens(Multisphere)/dimer", [S(1.59, 0.3, (0.4, 0.1, 3.0)), S(1.59, 0.3, (-0.3, 0.2, 3.3))], psi, pts(4),
-             Lens(0.8, Multisphere(), 40, 40), tol=1e-5),
+             # the azimuthal rule is exact only beyond the integrand's bandwidth k*rho*sin(lens angle) ~ 35
+             # for the farthest point: 40 nodes left an orientation-dependent 6e-4 (seed 2), 64 leave 1e-11
+             Lens(0.8, Multisphere(), 40, 64), tol=1e-5),
+        # default theory: the Mie-superposition / Multisphere rule looks at the largest centre distance
+        # (36 radii here, beyond the 30-radii switch) and must not depend on the in-plane orientation
+        Conf("auto/dimer_beyond_switch", [S(1.59, 0.25, (4.3 * math.cos(th0), 4.3 * math.sin(th0), 5.0)),
+                                          S(1.59, 0.25, (-4.7 * math.cos(th0), -4.7 * math.sin(th0), 5.4))],
+             psi, pts(), "auto"),
+        Conf("auto/dimer_within_switch", [S(1.59, 0.25, (3.3 * math.cos(th0), 3.3 * math.sin(th0), 5.0)),
+                                          S(1.59, 0.25, (-3.7 * math.cos(th0), -3.7 * math.sin(th0), 5.4))],
+             psi, pts(), "auto", tol=1e-7),
     ]
     return confs
 
@@ -134,9 +147,9 @@ def run(ctx):
     quick = ctx.tier == "quick"
     rng = random.Random(ctx.seed)
     ctx.rule = ("TLC enumerates all paths of length <= 3 over 3 lattice shifts, 5 rotations in Z_24 and the "
-                "mirror; the edge cover is applied step by step to 11 generic configurations (Mie, Mie "
+                "mirror; the edge cover is applied step by step to 13 generic configurations (Mie, Mie "
                 "superposition incl. layered, Multisphere trimer, T-matrix spheroid/cylinder, MieLens above/"
-                "below focus, AberratedMieLens, Lens(Mie) above/below focus, Lens(Multisphere)); distinct = "
+                "below focus, AberratedMieLens, Lens(Mie) above/below focus, Lens(Multisphere), default theory for a dimer on either side of the 30-radii switch); distinct = "
                 "(configuration, path); non-trivial = path contains a rotation or mirror")
     ctx.assumptions = ["rotations are exact multiples of 15 degrees acting on a configuration whose own "
                        "angles (polarisation, positions) are seeded generic values",
@@ -153,7 +166,7 @@ def run(ctx):
         edges = list(g.edges)
         slow = conf.name.startswith("Lens(")
         if quick:
-            edges = rng.sample(edges, 6 if slow else 24)
+            edges = edges if conf.name.startswith("auto/") else rng.sample(edges, 6 if slow else 24)
         fs = float(np.max(np.abs(f0)))
         for e in edges:
             init, path = g.path_to(e[0])
